@@ -85,6 +85,18 @@ CHECKS = {
         "text": 'Generated-input search: expressions of all sorts (annotated, FP, strings) must unpickle to the same object in-process, and in children with PYTHONHASHSEED 0/1/12345 to a structurally equal expression that is hash-consed with an identical rebuild; solver histories with pickle steps on every frontend class keep answering per the brute-force model set.',
         "note": 'Brute-force model-set reference is exact only within 17 variable bits (4 four-bit variables + 1 Boolean); latitude of DESIGN 3.2 (eval may return any feasible subset of the right size; empty result or UnsatError when no value exists; semantically constant queries answered without the solver).',
     },
+    "C17": {
+        "level": "fault_enumeration",
+        "technique": "fault injection over generated solver histories: every (operation, solver-check index) position enumerated per history, fault kinds x reasons, answers afterwards vs a brute-force model set",
+        "text": "Generated histories (random C11/C12-style and fault-directed scenarios with several constraint groups, probes, a branch and re-queries) on Solver, SolverCacheless, SolverComposite and SolverHybrid; a counting pass learns how many backend checks each operation performs, then the history is re-run once per (operation, check index) with z3.Solver.check made to report unknown at exactly that call (without / after running the real check; reasons timeout, resource limit, canceled). The faulted operation must raise a ClaripyError other than UnsatError, and every later answer of that solver and of branches taken afterwards is compared with the brute-force model set. Positions are enumerated per generated history, histories are sampled.",
+        "note": "The fault is injected at the z3.Solver.check boundary from outside claripy (models timeout / resource limit / interrupt as Z3 reports them); brute-force reference exact within 17 variable bits; a history that already fails without any fault is attributed to C11-C13.",
+    },
+    "C19": {
+        "level": "exploration",
+        "technique": "controlled-schedule exploration: harness-owned line-level scheduler, complete state-space DFS for 1-2 threads, preemption-bounded DFS and generated schedules for 3 threads, invariant after every step",
+        "text": "The harness owns the scheduler (trace function yields before every line of _enter_z3/_exit_z3/z3_condom and the wrapped bodies) and substitutes the module's gc and lock with a model flag and a scheduler-aware lock. For every 1- and 2-thread configuration of nested call programs (incl. bodies raising Z3Exception) and both initial GC states, every scheduling choice in every reachable state is explored; 3-thread configurations up to a preemption bound plus generated schedules. After every step: flag disabled while any call is in progress, count >= 0, no deadlock; at the end flag restored, count 0, no underflow logged.",
+        "note": "Line granularity only (no bytecode-level interleavings inside one line); the lock and GC models are the harness's; exits 2 (not a violation) if the module-level names it rebinds disappear.",
+    },
 }
 
 NOT_APPLICABLE = {}
